@@ -14,6 +14,8 @@ import (
 	"encoding/json"
 	"fmt"
 	"os"
+	"runtime/debug"
+	"runtime/pprof"
 	"time"
 
 	"github.com/zeromicro/go-zero/core/logx"
@@ -28,7 +30,25 @@ func main() {
 	stat.DisableLog()
 	stat.SetReporter(nil)
 	installHook()
+	debug.SetGCPercent(1000) // tiny live heap, millions of short-lived calls: GC cycles dominate otherwise
 
+	if pf := os.Getenv("C01_BENCH"); pf != "" {
+		f, _ := os.Create(pf)
+		pprof.StartCPUProfile(f)
+		t0 := time.Now()
+		n := 0
+		for i := 0; i < 300; i++ {
+			st, fl, _ := probeAll([]Op{{K: "FFF"}, {K: "J", D: sec + 1}, {K: "F"}, {K: "SS"}})
+			if fl != nil {
+				fmt.Println(fl)
+			}
+			n += st.Probes
+		}
+		pprof.StopCPUProfile()
+		f.Close()
+		fmt.Printf("bench: %d probes in %v: %.2f us/probe\n", n, time.Since(t0), float64(time.Since(t0).Microseconds())/float64(n))
+		os.Exit(0)
+	}
 	if cfg.Replay != "" {
 		b, err := os.ReadFile(cfg.Replay)
 		if err != nil {
@@ -64,13 +84,13 @@ func main() {
 	r.Assume("calls with an already-done context are a third category (interface doc): request not run, ctx.Err() returned, nothing recorded")
 
 	runWrappers(r)
-	runLanes(r)
 	// time box of the history engine; the schedule engine gets the rest
 	hd := cfg.Start.Add(200 * time.Second)
 	if cfg.Thorough() {
 		hd = cfg.Start.Add(13 * time.Minute)
 	}
 	runHistory(cfg, r, hd)
+	runLanes(r)
 	runSchedules(cfg, r) // finishes the report and exits
 }
 
